@@ -157,7 +157,11 @@ def check(repo: Repo, rep: Report) -> None:
             return "REL:" + (dotted(n.func.value) or "?")
         return None
     takes = [s for s in sites(idisp) if ev2(s.node) == "TAKE"]
-    rep.require(len(takes) == 1, "parent = self.parent in InnerDisposable.dispose")
+    if len(takes) != 1:
+        rep.ob("R1-release-guard", idisp, "InnerDisposable.dispose takes its (strong) parent reference exactly once, under its lock", False,
+               "InnerDisposable.dispose does not read `self.parent` into a local exactly once (a weak reference, a re-read, or none): the "
+               "dependent can find its RefCountDisposable gone — release() is never called and the underlying resource is never released — or release twice")
+        return
     local = u(takes[0].node.targets[0])
     for p in paths(idisp, ev2):
         if p.exc:
